@@ -49,7 +49,9 @@ ASSUMPTIONS = [
     "one daemon; objects carrying another daemon's _pyroDaemon are outside the history alphabet",
 ]
 TRUSTED = ["the in-memory connection and the pool classes of harness/props/c16.py",
-           "the AST features by which the extractor decides the five Cfg switches (a wrong switch shows up as a correspondence mismatch)"]
+           "the extraction-time probes (witness histories on a real Daemon, instrumented register(), replacement-vs-conversion "
+           "probes of default()) that decide the five Cfg switches and the other generated facts (a wrong switch shows up as a "
+           "correspondence mismatch)"]
 
 # pool (mirrors `classOf` / `canSet` / `viaClassToDict` of PyroModel/Registry.lean):
 #   objects 0-5: instances of the ordinary classes 0-2 (k mod 3); only these classes are ever registered as classes
